@@ -10,5 +10,8 @@ def run(rep, tier, seed):
                                         'ops': ['self', 'donor', 'slice', 'views', 'optional'], 'norm': False})
     sec['native_entry'] = ('b_edit', 'replay')
     rep.bounded(sec)
+    sec = native.run('b_raw', 'main', {'props': ['C03'], 'tier': tier, 'seed': seed, 'ops': ['rawput']})
+    sec['native_entry'] = ('b_raw', 'replay')
+    rep.bounded(sec)
     rep.remainder = ('the handlers\' implementation of the container law and the virtual-field merge logic of the '
                      'FSTView_* subclasses: bounded sweep only')
